@@ -759,6 +759,10 @@ def _photon_conversion(run, prog):
                 return super().call(n)
 
         def val2(f):
+            try:
+                f = flatten(f, module_lookup(cm))
+            except Exception:
+                pass
             g = propagate(f)
             rets = [r for r in ast.walk(g) if isinstance(r, ast.Return) and r.value is not None]
             if len(rets) != 1:
@@ -769,7 +773,7 @@ def _photon_conversion(run, prog):
                 return None
         vt, vi = val2(fs2['to']), val2(fs2['inv'])
         x1, x2 = L(fs2['to'].args.args[-1].arg), L(fs2['inv'].args.args[-1].arg)
-        if vt is None or vi is None:
+        if vt is None or vi is None or any(l.startswith('?') or '(' in l for v in (vt, vi) for l in v.leaves() if not l.startswith('sqrt')):
             run.undecided('C07-R10', cname + '.to / inv', 'not in a recognised arithmetic form')
             continue
         if wt == 'sqrt':
